@@ -154,6 +154,10 @@ func (r *Run) Report() int {
 			if !hasProp(o.Props, prop) {
 				continue
 			}
+			if o.Cover && o.Status == "vacuous" && o.Rel != nil && o.Rel.Status != "covered" {
+				covers++
+				continue // the call site itself is unreachable: nothing became vacuous at this call
+			}
 			if o.Cover && anyFailed && o.Status == "vacuous" {
 				// a failed obligation is assumed afterwards, which can make later points unreachable:
 				// vacuity is only meaningful when everything before it was proved
